@@ -44,13 +44,28 @@ def solver_options(a):
 def judge_file(text, a, tally):
     defects, f = genfile.check_file(text, a)
     if f is None or defects:
-        tally.inc("files_not_wellformed_skipped")     # C08's business
+        tally.inc("files_not_wellformed")     # well-formedness itself is C08's business
         if f is None:
+            # our parser cannot read it; the pipeline property still requires the
+            # solver to load whatever the generator wrote
+            kind = 3 if a["mp"] == "spa" else 2
+            try:
+                from matchingproblems.solver.solver import Solver
+                path = lprun.inst_file(text, "c09raw.txt")
+                with lprun._Quiet():
+                    Solver(["-f", path, "-na", str(kind)] + (["-twopl"] if a["twopl"] else []))
+            except BaseException as e:     # noqa
+                if isinstance(e, lprun.HarnessError):
+                    raise
+                fp = lprun.exc_fingerprint(e) if isinstance(e, Exception) else type(e).__name__
+                tally.violation({"args": a, "gen_argv": genvectors.argv_of(a), "file": text,
+                                 "fingerprint": "load-exc:" + fp,
+                                 "what": "the solver cannot load a file the generator wrote: %r" % (e,)})
             return
     try:
         inst = to_inst(f, a)
     except Exception:      # noqa
-        tally.inc("files_not_wellformed_skipped")
+        tally.inc("files_not_wellformed")
         return
     two = a["twopl"]
     tally.inc("files")
@@ -172,7 +187,7 @@ def main(tier):
         "lp_items": c.get("lp_items", 0),
         "lp_executions": c.get("executions", 0),
         "bf_runs": c.get("bf_items", 0),
-        "files_not_wellformed_skipped": c.get("files_not_wellformed_skipped", 0),
+        "files_not_wellformed_by_C08_rules": c.get("files_not_wellformed", 0),
     }
     if not c.get("files"):
         tally.harness_errors.append("vacuous: no generated file solved")
